@@ -3,6 +3,8 @@ import Driver.Filter
 import Driver.Syntax
 import Driver.Eval
 import Driver.Settings
+import Driver.Dispatcher
+import Driver.Sched
 namespace Driver
 
 def dispatch (line : String) : String :=
@@ -10,6 +12,8 @@ def dispatch (line : String) : String :=
   | "xxh" :: rest => (handleXxh rest).getD "bad-op"
   | "pout" :: rest => (handlePout rest).getD "bad-op"
   | "parse" :: rest => (handleParse rest).getD "bad-op"
+  | "sched" :: rest => (handleSched rest).getD "bad-op"
+  | "disp" :: rest => (handleDisp rest).getD "bad-op"
   | "settings" :: rest => (handleSettings rest).getD "bad-op"
   | "eval" :: rest => (handleEval rest).getD "bad-op"
   | "rt" :: rest => (handleRt rest).getD "bad-op"
